@@ -25,6 +25,23 @@ KINDS = {"Boolean": ["b"], "String": ["s"], "Bytes": ["y"], "Float32": ["n", "0"
 for _p, (_lo, _hi) in e2e.INT_RANGES.items():
     KINDS[_p] = ["n", "1", str(_lo), str(_hi)]
 PLACEHOLDER = {"type": {"prim": "Boolean"}}
+# further strings per format whose verdict is asked of the C17 Lean format specification (drv_fmt)
+FORMAT_EXTRA = {"ipv4": ["::ffff:192.168.0.1", "1.2.3.4", "256.1.1.1", "1.2.3"], "date": ["2024-02-30", "2023-02-28", "2024-2-01"],
+                "uuid": ["6BA7B810-9DAD-11D1-80B4-00C04FD430C8", "6ba7b8109dad11d180b400c04fd430c8"], "mac": ["00-00-5e-00-53-01", "00:00:5e:00:53"],
+                "cidr": ["10.0.0.0/33", "10.0.0.0/0"], "hostname": ["a.b-c.d", "-a.b"]}
+FORMAT_VERDICTS = {}
+
+
+def load_format_verdicts(c):
+    """verdicts of the C17 specification recognisers for FORMAT_EXTRA (only where spec and goa's own regex model agree)"""
+    if not c.lake_build("drv_fmt", what="tie"):
+        return
+    pairs = [(f, x) for f, xs in FORMAT_EXTRA.items() for x in xs]
+    rc, out, se = c.run_lines([os.path.join(LEAN, ".lake/build/bin/drv_fmt")], "".join("fmt %s %s x\n" % (f, hx(x)) for f, x in pairs))
+    for (f, x), line in zip(pairs, out):
+        m = re.match(r"re=([01-]) spec=([01-])", line)
+        if m and m.group(2) in "01" and m.group(1) in ("-", m.group(2)):
+            FORMAT_VERDICTS[(f, x)] = m.group(2) == "1"
 
 
 class Skip(Exception):
@@ -133,6 +150,8 @@ def enc_val(schema, att, v):
                 fo = "1"
             elif v == FORMAT_BAD.get(ev["format"]):
                 fo = "0"
+            elif (ev["format"], v) in FORMAT_VERDICTS:
+                fo = "1" if FORMAT_VERDICTS[(ev["format"], v)] else "0"
             else:
                 raise Skip("format verdict unknown for %r" % v)
         if ev.get("pattern"):
@@ -253,6 +272,9 @@ def candidates(schema, att, a, v, loc, rng):
         if ev.get("format"):
             out += [("format-ok", e2e.FORMAT_SAMPLES[ev["format"]]), ("format-bad", FORMAT_BAD[ev["format"]])]
             out = [(l, x) for l, x in out if x is not None]
+            out += [("format-spec", x) for (f, x) in FORMAT_VERDICTS if f == ev["format"] and not (ascii_only and not x.isascii())]
+            if loc == "path":
+                out = [(l, x) for l, x in out if "/" not in x]
         else:
             units = ["a"] if ascii_only else ["a", "é", "日"]
             if ev.get("pattern"):
@@ -278,6 +300,30 @@ def candidates(schema, att, a, v, loc, rng):
                 for n in (ev[k] - 1, ev[k], ev[k] + 1):
                     if n >= 0:
                         out.append(("%s%+d" % (k, n - ev[k]), "b" * n))
+    elif t.get("map_key") and isinstance(v, dict):
+        kev = eff_val(schema, t["map_key"])
+        kp = schema.resolve(t["map_key"]).get("type", {}).get("prim")
+        x = next(iter(v.values())) if v else e2e.gen_value(schema, t["map_elem"], rng, "body", 3)
+        keys = []
+        if kp == "String":
+            for k in ("minlen", "maxlen"):
+                if k in kev:
+                    keys += [("key-%s%+d" % (k, n - kev[k]), "k" * n) for n in (kev[k] - 1, kev[k], kev[k] + 1) if n >= 1]
+            if kev.get("pattern"):
+                keys += [("key-pattern", s) for s in ("abc", "ABC1", "7", "xyz")]
+            if kev.get("enum"):
+                keys += [("key-enum-outsider", "zzz"), ("key-enum-member", kev["enum"][0])]
+        elif kp in e2e.INT_RANGES:
+            for k in ("min", "max", "exmin", "exmax"):
+                if k in kev:
+                    keys += [("key-%s%+d" % (k, d), int(kev[k]) + d) for d in (-1, 0, 1)]
+            if kev.get("enum"):
+                keys += [("key-enum-outsider", max(kev["enum"]) + 1)]
+        if x is not None:
+            for lab, k in keys:
+                nv = copy.deepcopy(v)
+                nv[str(k)] = copy.deepcopy(x)
+                out.append((lab, nv))
     elif t.get("array") and isinstance(v, list):
         for k in ("minlen", "maxlen"):
             if k in ev:
@@ -385,9 +431,11 @@ def plan(b, seed, per_valid, cap):
                 continue
             locs = e2e.locations_of(m)
             rlocs = {}
-            for r0 in ((m.get("http") or {}).get("responses") or [])[:1]:
-                for mp in (r0.get("headers") or []) + (r0.get("cookies") or []):
+            for r0 in ((m.get("http") or {}).get("responses") or []):
+                for mp in (r0.get("headers") or []):
                     rlocs[mp["attr"]] = "header"
+                for mp in (r0.get("cookies") or []):
+                    rlocs[mp["attr"]] = "cookie"
             for k in range(per_valid):
                 rng = e2e.rng_for(seed, "c04", b.index, s["name"], m["name"], k)
                 p = e2e.gen_object(b.schema, m["payload"], rng, "body", 0, locs) if m.get("payload") else None
@@ -398,6 +446,10 @@ def plan(b, seed, per_valid, cap):
                 res = e2e.gen_value(b.schema, m["result"], rng, "body") if m.get("result") else None
                 if m.get("result") and res is None:
                     continue
+                if isinstance(res, dict):
+                    for an, loc in rlocs.items():  # header/cookie transport of odd strings is C03's subject
+                        if isinstance(res.get(an), str) and not re.match(r"^[A-Za-z0-9._-]+$", res[an]):
+                            res[an] = "abc"
                 base = {"op": "call", "service": s["name"], "method": m["name"], "payload": p, "script": {"result": res}}
                 if m.get("payload"):
                     cmds.append(base)
@@ -543,6 +595,15 @@ def absent_optional_collection(schema, att, v):
     return False
 
 
+def exmax_with_exmin_site(schema, att, v):
+    """some number in v sits at or above the ExclusiveMaximum of an attribute that also has an ExclusiveMinimum"""
+    for path, fatt, a, x, _ in sites(schema, att, v, [], "body"):
+        ev = eff_val(schema, fatt)
+        if "exmin" in ev and "exmax" in ev and isinstance(x, (int, float)) and not isinstance(x, bool) and x >= ev["exmax"]:
+            return True
+    return False
+
+
 def later_required_cookie(m, loc, attr):
     """the generated request decoder assigns `c, err = r.Cookie(...)` for every required cookie,
     dropping what was collected in err before"""
@@ -580,7 +641,7 @@ def judge(side, label, verdict, o, b, m, val, locs, typed):
                 loc = "query" if "query" in label else "body"
             # which top-level attribute differs from a valid value is not tracked: any site of that location
             attrs = [a for a, l in locs.items() if l == loc] or [None]
-            if "exmax-with-exmin" in label and names == ["invalid_range"]:
+            if names == ["invalid_range"] and ("exmax-with-exmin" in label or exmax_with_exmin_site(b.schema, att, sent)):
                 return [("request/exclusive-maximum-ignored-when-exclusive-minimum-set", "a value at or above the ExclusiveMaximum of an attribute that also has an "
                          "ExclusiveMinimum reached the service method (%s)" % label)]
             if any(later_required_cookie(m, loc, a) for a in attrs):
@@ -607,7 +668,7 @@ def judge(side, label, verdict, o, b, m, val, locs, typed):
     if not o.get("server_called"):
         return []
     if rejected and not ce:
-        if "exmax-with-exmin" in label and names == ["invalid_range"]:
+        if names == ["invalid_range"] and ("exmax-with-exmin" in label or exmax_with_exmin_site(b.schema, att, sent)):
             return [("response/exclusive-maximum-ignored-when-exclusive-minimum-set", "the client returned a result at or above the ExclusiveMaximum of an "
                      "attribute that also has an ExclusiveMinimum (%s)" % label)]
         return [("response/invalid-result-returned/%s/%s" % (kind, "+".join(names)), "the client returned a result violating %s" % ",".join(names))]
@@ -651,6 +712,8 @@ def run(c):
     if not (have and lean_ok):
         return
     drv = os.path.join(LEAN, ".lake/build/bin/drv_valid")
+    load_format_verdicts(c)
+    c.cov["ties"].setdefault("T3", []).append({"name": "format verdicts from the C17 Lean recognisers (drv_fmt)", "strings": len(FORMAT_VERDICTS)})
     work = designs.scratch("C04")
     builds = e2e.build_many(c.seed, range(n), flags_for, work)
     lines_total = 0
